@@ -885,6 +885,9 @@ def probe_emit_layout() -> tuple[bool, str]:
     from octave_mcp.core.emitter import emit, emit_value
 
     bad = []
+    for v in (2.5e-07, 1.25e-05, 1e22, -0.0, 1.5):
+        if emit_value(v, 0) != repr(v):
+            bad.append(f"float {v!r} is written as {emit_value(v, 0)!r}, not as {repr(v)!r}")
     for v in (5, "x", "a b", True, None):
         e0, e1, e2 = emit_value(v, 0), emit_value(v, 1), emit_value(v, 2)
         d = Document(name="N", meta={"TYPE": v, "SUB": {"I": v}}, sections=[Assignment(key="K", value=v), Block(key="B", children=[Assignment(key="C", value=v), Block(key="D", children=[Assignment(key="E", value=v)])]), Assignment(key="Z", value=v)])
@@ -903,7 +906,7 @@ def emit_layout_obs(P: str) -> list[Ob]:
         return _contract_group(group, probe_emit_layout, "props.lexical:probe_emit_layout", ns="emit_layout")
 
     fns = ["octave_mcp.core.emitter:emit", "octave_mcp.core.emitter:emit_assignment", "octave_mcp.core.emitter:emit_block", "octave_mcp.core.emitter:emit_meta"]
-    value_ob = Ob(f"{P}.P.emit.value", "P", "emit_value on scalars: int -> its decimal text, bool -> true / false, None -> null, str -> itself when needs_quotes says no, a double-quoted text otherwise", ["octave_mcp.core.emitter:emit_value"], make(lambda ctx: [f"value_scalar({k!r})" for k in ("int", "bool", "null", "str")]))
+    value_ob = Ob(f"{P}.P.emit.value", "P", "emit_value on scalars: int -> its decimal text, float -> Python's own str of the float, bool -> true / false, None -> null, str -> itself when needs_quotes says no, a double-quoted text otherwise", ["octave_mcp.core.emitter:emit_value"], make(lambda ctx: [f"value_scalar({k!r})" for k in ("int", "float", "bool", "null", "str")]))
     return [value_ob, Ob(f"{P}.P.emit.layout", "P", "emit on document spines (top-level assignment, blocks 1-3 deep, siblings, META with a nested level): the text is exactly the strict layout - explicit ===NAME=== / ===END===, KEY::value with no space, two spaces per level, one final newline - around the value texts emit_value returns", fns, make(lambda ctx: EL.all_contracts(ctx.thorough)))]
 
 
